@@ -346,6 +346,18 @@ def run_dimfiles(desc):
         except Exception as e:
             b = "excel-first-sheet-not-read" if fmt == "excel" and desc["sheets"] == "first" else "dimension-file-rejected"
             raise Violation(b, f"{type(e).__name__}: {str(e)[:160]}; fmt {fmt} sheets {desc['sheets']} specs {desc['specs']}")
+    # a file with more than one row AND more than one column is not a list of items
+    if fmt == "csv":
+        with tempfile.TemporaryDirectory(prefix="verif_c18_") as tmp2:
+            bad = os.path.join(tmp2, "bad.csv")
+            pd.DataFrame([[1, 2], [3, 4]]).to_csv(bad, header=False, index=False)
+            d0 = U["dims"][0]
+            try:
+                fd.CSVDimensionReader(dimension_files={d0["name"]: bad}).read_dimensions(dim_defs({"dims": [d0]}))
+            except Exception:
+                pass
+            else:
+                raise Violation("two-dimensional-dimension-file-accepted", "2x2 table read as dimension items")
     require(list(ds.letters) == gen.uletters(U), "dimension-order", str(ds.letters))
     for d, sp in zip(U["dims"], desc["specs"]):
         got = ds[d["letter"]]
